@@ -440,6 +440,9 @@ func (p *Path) externGlobalInit(g *ssa.Global, t types.Type) (value, bool) {
 	case "io.Discard":
 		dt := g.Pkg.Type("discard").Object().Type()
 		return iface{t: dt, v: structure{}}, true
+	case "io/ioutil.Discard":
+		dt := p.eng.prog.ImportedPackage("io").Type("discard").Object().Type()
+		return iface{t: dt, v: structure{}}, true
 	case "encoding/base64.URLEncoding", "encoding/base64.RawURLEncoding", "encoding/base64.StdEncoding", "encoding/base64.RawStdEncoding":
 		cell := new(value)
 		*cell = p.zero(deref(t))
